@@ -134,7 +134,7 @@ def public_scan_problem(d):
     if not (len(boxes) == len(offsets) == len(layers)):
         return "lengths differ: boxes=%d offsets=%d layers=%d" % (
             len(boxes), len(offsets), len(layers))
-    if d.layers.dom != d.dom or d.layers.cod != d.cod:
+    if list(d.layers.dom.objects) != list(d.dom.objects) or list(d.layers.cod.objects) != list(d.cod.objects):
         return "layer arrow dom/cod differ from the diagram's"
     scan = list(d.dom.objects)
     for k, (box, off) in enumerate(zip(boxes, offsets)):
